@@ -483,6 +483,35 @@ def rule_vcs_output_verbatim(ck: Check, repo: Repo, rid: str) -> None:
 
 
 
+def rule_meson_parent(ck: Check, repo: Repo, rid: str) -> None:
+    """A directory is a Meson subproject when its parent, INSIDE the project, is called `subprojects`.  The test must not
+    look at components at or above the project root: for the children of the root the 'parent name' is then the root's own
+    name as spelled - a project that lives in a directory called `subprojects` loses all its top-level directories when the
+    root is given by name or absolutely, and keeps them with `--root .`."""
+    r = ck.rule(rid, "the Meson-subproject test looks only at path components below the project root")
+    q = f"{CF}.is_path_ignored"
+    fn = repo.func(q)
+    from ..rules import deep_text
+    ops = []
+    for c in ast.walk(fn):
+        if isinstance(c, ast.Call) and isinstance(c.func, ast.Attribute) and c.func.attr in ("match", "fullmatch", "search") and c.args:
+            loops = [p for p in ast.walk(fn) if isinstance(p, ast.For) and c in list(ast.walk(p)) and "MESON" in ast.unparse(p.iter)]
+            if loops or "MESON" in ast.unparse(c.func.value):
+                ops.append((deep_text(fn, c.args[0]), c))
+    params = [a.arg for a in fn.args.args + fn.args.kwonlyargs]
+    r.instance("meson-operand", {"operands": [o for o, _ in ops], "parameters": params}, q)
+    if not ops:
+        raise AnalysisError("is_path_ignored: Meson parent test not found")
+    rootish = [p for p in params if p in ("root", "project_root", "directory", "base", "top")]
+    for text, node in ops:
+        if "path.parent" in text and not rootish and "relative_to" not in text:
+            r.violation(q, "the Meson test uses the parent name of the path as walked",
+                        f"operand `{text}` and no parameter names the project root: for `<root>/src` the parent name is the root's own"
+                        f" last component - with a project directory called `subprojects`, `reuse --root /x/subprojects lint` skips"
+                        f" every top-level directory (0 files) while `--root .` lints them all", repo.loc(node))
+
+
+
 def shared_decision(ck: Check, repo: Repo, rid: str) -> None:
     """The decision table of is_path_ignored for another property that depends on the covered-file set (the name
     languages themselves are C03-R1's business; only the meson parent language is needed to instantiate the table)."""
@@ -750,6 +779,7 @@ def run(ck: Check, repo: Repo) -> None:
     rule_decision(ck, repo, langs)
     rule_path_bases(ck, repo, "R6")
     rule_vcs_output_verbatim(ck, repo, "R7")
+    rule_meson_parent(ck, repo, "R8")
     rule_walk(ck, repo)
     rule_forwarding(ck, repo)
     rule_vcs(ck, repo)
